@@ -357,7 +357,9 @@ static void run_case(val *c)
 		free(s.blk);
 		for (i = 0; i < nmn; i++) free(mn[i].blk);
 #if defined(__SANITIZE_ADDRESS__)
-		if (__lsan_do_recoverable_leak_check()) flags |= 16;
+		/* the recoverable check reports every block leaked so far in this process: only the first
+		 * case that leaks can be blamed, later ones would inherit its report */
+		{ static int leaked_before; if (!leaked_before && __lsan_do_recoverable_leak_check()) { flags |= 16; leaked_before = 1; } }
 #endif
 		o_int(r);
 		o_int(flags);
